@@ -498,6 +498,18 @@ def gen_history(rng, profile, faults=False, sweep=False, hostile=False, reuse=Fa
                 # splice: the derived work starts after the pull that keeps the value
                 st = st + extra
             b.scripts[c] += st
+        # the same query over inputs that repeat: A, B, B, A -- anything keyed
+        # by input values that outlives one execution (a memo in an op, say)
+        # sees an equal key again, right after a different one
+        if rng.random() < 0.3:
+            cands = [x for x in runnable if x[2] is not None and len(x[2]["inputs"]) >= 2]
+            if cands:
+                q, p, g, info = rng.choice(cands)
+                a, bb = rng.sample(g["inputs"], 2)
+                c = rng.randrange(nclients)
+                for i in rng.choice([[a, bb, bb, a], [a, bb, bb], [a, a, bb, bb, a]]):
+                    st, _ = task_steps(b, c, q, i, rng.choice([None, None, 2]))
+                    b.scripts[c] += st
         # lifecycle noise: drop and re-create shared objects in mid-history
         for _ in range(rng.choice([0, 0, 1, 2])):
             c = rng.randrange(nclients)
